@@ -59,7 +59,7 @@ CLAIMED = {
     "C14": dict(
         category="exploration",
         text="The interpreter is the nondeterminism source: fresh interpreters under different PYTHONHASHSEED values "
-             "(12 quick / 48 thorough incl. 'random' on the whole workload, 16 / 80 more on its light part) each compute "
+             "(12 quick / 32 thorough incl. 'random' on the whole workload, 16 / 48 more on its light part) each compute "
              "every output kind for the corpus, the package's other command-line tools, generated structures, the adapter on "
              "generated conflicting annotations, the unifier on generated conflicting copies, library-level writers, derived "
              "PDB inputs (alternate locations, twin chains, insertion codes, models, modified and protonated residues) and "
